@@ -13,6 +13,8 @@ produced exactly where the Rust would panic).
   observe: every caller returns the error).
 * `withTake n x` — `reader.take(n)` handed to `x`: `x` sees a window of at most `n` bytes; when the
   `Take` is dropped the underlying reader stays where `x` stopped reading.
+* `withTakeDrain n x` — the same, and the rest of the `Take` is then read and dropped: the
+  underlying reader is `n` bytes on (noodles-csi `read_aux` since /repo `fix:` 8288cb5).
 * `window n` — a `Take` that is read to ITS end (`BufReader::new(reader.take(n))` followed by
   `read_until` loops and `discard_to_end`): the window's bytes, the stream continues after them.
   A stream shorter than `n` bytes gives a shorter window and no error.
@@ -70,6 +72,15 @@ the window -/
 def withTake (n : Nat) (x : Rd α) : Rd α := fun s =>
   match x (s.take n) with
   | .ok (a, w) => .ok (a, s.drop ((s.take n).length - w.length))
+  | .err e => .err e
+  | .panic => .panic
+
+/-- `reader.take(n)` handed to `x`, then the rest of the `Take` read and dropped
+(`io::copy(&mut take, &mut io::sink())?`): the underlying reader has advanced by all `n` bytes —
+by all there is when the stream is shorter, which is not an error of the drain -/
+def withTakeDrain (n : Nat) (x : Rd α) : Rd α := fun s =>
+  match x (s.take n) with
+  | .ok (a, _) => .ok (a, s.drop n)
   | .err e => .err e
   | .panic => .panic
 
